@@ -286,10 +286,6 @@ int snoopy_configfile_parseValue_output (
     int    outputArgFound = SNOOPY_FALSE;
 
 
-    // Do not assign null to it explicitly, as you get "Explicit null dereference" Coverity error.
-    // If you do not assign it, Coverity complains with "Uninitialized pointer read".
-    char  *saveptr1 = "";
-
     // First clone the config value, as it gets freed by ini parsing library
     confVal = strdup(confValString);
 
@@ -302,8 +298,12 @@ int snoopy_configfile_parseValue_output (
     } else {
         // Separate output name from its arguments
         // (arguments may contain further ':' characters, like "file:/var/log/snoopy-%{datetime:%Y-%m-%d}")
-        outputName = strtok_r(confVal, ":", &saveptr1);
-        outputArg  = outputName + strlen(outputName) + 1;
+        // Split at the FIRST colon. (strtok_r() skips leading delimiters: it returned NULL for ":" and a
+        // name whose computed argument pointed past the end of the value for ":name".)
+        char *firstColon = strchr(confVal, ':');
+        *firstColon = '\0';
+        outputName = confVal;
+        outputArg  = firstColon + 1;
         outputArgFound = SNOOPY_TRUE;
     }
 
